@@ -165,6 +165,12 @@ def _inheritance(it, ctx):
         goals.append(("child_inherits_this_nodes_algorithm", _same(it, a["algorithm"], slf.attrs["alg"])))
         goals.append(("child_inherits_this_nodes_context", _same(it, a["context"], slf.attrs["context"])))
         goals.append(("child_inherits_this_nodes_scripts", z3.And(_same(it, a["sign_script"], slf.attrs["sign_script"]), _same(it, a["kms_script"], slf.attrs["kms_script"]))))
+        # ... and nothing else: what a dependency inherits from the node above it is the sign script, the KMS script, the algorithm and the context; its key,
+        # key id, omit-signing flag and already-signed action come from its OWN entry (default action: error) - a constructor that is handed more than
+        # the seven values below lets a setting of the parent leak into the child
+        known = {"self", "envelope", "envelope_json", "envelope_name", "sign_script", "kms_script", "algorithm", "context"}
+        extra = {k for k in a if not k.startswith("__") and k != "result"} - known
+        goals.append(("child_is_handed_only_what_it_may_inherit", z3.BoolVal(not extra)))
         goals.append(("child_gets_its_own_entry_and_name", z3.And(z3.BoolVal(a["envelope_json"] is cfg.entries["dependencies"].value.entries["#dep"].value or _is_snapshot_of(a["envelope_json"], cfg.entries["dependencies"].value.entries["#dep"].value)),
                                                                   _same(it, a["envelope_name"], __import__("pyvc.values", fromlist=["VStr"]).VStr("#dep")))))
     return goals
@@ -380,7 +386,7 @@ c.variants = [("single-level", {}), ("recursive", {"sign_subcommand": Const("rec
 c.call_by_keyword = True
 c.setup = _main_input
 c.requires("input_file_holds_the_envelope", "FILE(input_envelope) == INPUT")
-c.requires("output_is_another_file", "input_envelope != output_envelope")
+# (no distinctness precondition: signing IN PLACE - the same path for input and output - is ordinary use; the input is read before anything is written)
 
 
 def _main_checks(it, ctx):
@@ -400,7 +406,8 @@ def _main_checks(it, ctx):
             goals.append(("configuration_is_read_from_the_named_file", z3.And((jl[0][1] if z3.is_expr(jl[0][1]) else it.stubs.path_term(it, jl[0][1])) == it.stubs.path_term(it, ctx.arg("configuration")), z3.BoolVal(a["envelope_json"] is jl[0][3]))))
             goals.append(("the_signer_that_was_configured_is_the_one_run", z3.BoolVal(runs[0][2]["self"] is a["self"])))
             goals.append(("output_file_holds_the_signed_envelope", ctx.eval("FILE(output_envelope)").e == cbor.enc(it, runs[0][3]).e))
-            goals.append(("input_file_untouched", ctx.eval("FILE(input_envelope)").e == ctx.arg("INPUT").e))
+            goals.append(("input_file_untouched_unless_signed_in_place", z3.Implies(it.stubs.path_term(it, ctx.arg("input_envelope")) != it.stubs.path_term(it, ctx.arg("output_envelope")),
+                                                                                     ctx.eval("FILE(input_envelope)").e == ctx.arg("INPUT").e)))
         return goals
     goals = [("signed_exactly_once", z3.BoolVal(len(calls) == 1))]
     if len(calls) != 1:
@@ -413,7 +420,8 @@ def _main_checks(it, ctx):
                            ("already_signed_action", "already_signed_action")):
         goals.append((f"{actual}_reaches_its_parameter", same(a[formal], ctx.arg(actual))))
     goals.append(("output_file_holds_the_signed_envelope", ctx.eval("FILE(output_envelope)").e == cbor.enc(it, calls[0][3]).e))
-    goals.append(("input_file_untouched", ctx.eval("FILE(input_envelope)").e == ctx.arg("INPUT").e))
+    goals.append(("input_file_untouched_unless_signed_in_place", z3.Implies(it.stubs.path_term(it, ctx.arg("input_envelope")) != it.stubs.path_term(it, ctx.arg("output_envelope")),
+                                                                                     ctx.eval("FILE(input_envelope)").e == ctx.arg("INPUT").e)))
     return goals
 
 
